@@ -153,6 +153,7 @@ struct SimState {
   std::map<void *, size_t> heap;  // blocks allocated by real code
   std::map<FILE *, OutStream *> ostreams;
   std::set<FILE *> istreams;  // input streams real code opened with fopen(path, "r")
+  std::map<FILE *, void *> istream_cookie;
   // stdio
   FILE *real_out = nullptr, *real_err = nullptr;
   FILE *sim_out = nullptr, *sim_err = nullptr, *sim_in = nullptr;
@@ -448,6 +449,8 @@ struct InStream {
   std::string data;
   size_t pos = 0;
   bool is_dir = false;
+  int file = -1;  // index into the simulated files
+  int fd = -1;    // descriptor handed out by fileno(), if any
 };
 static ssize_t ck_file_read(void *cookie, char *buf, size_t n) {
   HarnessScope hs_;
@@ -641,6 +644,7 @@ void sim_end_run() {
   G.ostreams.clear();
   for (FILE *f : G.istreams) __real_fclose(f);
   G.istreams.clear();
+  G.istream_cookie.clear();
   G.fds.clear();
 }
 
@@ -650,6 +654,7 @@ void process_reclaim() {
   G.ostreams.clear();
   for (FILE *f : G.istreams) __real_fclose(f);
   G.istreams.clear();
+  G.istream_cookie.clear();
   for (auto &kv : G.heap) __real_free(kv.first);
   G.heap.clear();
   for (Island &is : G.islands)
@@ -1028,6 +1033,34 @@ extern "C" ssize_t __wrap_write(int fd, const void *buf, size_t n) {
   if (take < n) errno = err;
   return (ssize_t)take;
 }
+// fileno() of a simulated stream: a descriptor of the simulated file system, so that fstat(fileno(fp)) works
+extern "C" int __real_fileno(FILE *);
+extern "C" int __wrap_fileno(FILE *f) {
+  if (!in_lib()) return __real_fileno(f);
+  HarnessScope hs_;
+  auto it = G.istream_cookie.find(f);
+  if (it != G.istream_cookie.end()) {
+    InStream *is = (InStream *)it->second;
+    if (is->fd < 0 && is->file >= 0) {
+      SimState::Fd fd;
+      fd.open = true;
+      fd.file = is->file;
+      G.fds.push_back(fd);
+      is->fd = FD_BASE + (int)G.fds.size() - 1;
+    }
+    return is->fd;
+  }
+  auto ot = G.ostreams.find(f);
+  if (ot != G.ostreams.end() && ot->second->file >= 0) {
+    SimState::Fd fd;
+    fd.open = true;
+    fd.file = ot->second->file;
+    fd.writable = true;
+    G.fds.push_back(fd);
+    return FD_BASE + (int)G.fds.size() - 1;
+  }
+  return __real_fileno(f);
+}
 extern "C" int __wrap_fstat(int fd, struct stat *st) {
   if (!in_lib()) return __real_fstat(fd, st);
   HarnessScope hs_;
@@ -1146,6 +1179,7 @@ extern "C" FILE *__wrap_fopen(const char *path, const char *mode) {
     InStream *is = new InStream();
     is->data = sf->data;
     is->is_dir = sf->kind == 2;
+    is->file = (int)(sf - &G.files[0]);
     cookie_io_functions_t rio = {ck_file_read, nullptr, ck_file_seek, ck_file_close};
     FILE *rf = fopencookie(is, "r", rio);
     if (!rf) {
@@ -1153,6 +1187,7 @@ extern "C" FILE *__wrap_fopen(const char *path, const char *mode) {
       return nullptr;
     }
     G.istreams.insert(rf);
+    G.istream_cookie[rf] = is;
     return rf;
   }
   std::string p(path);
@@ -1228,7 +1263,15 @@ extern "C" size_t __wrap_fwrite(const void *ptr, size_t size, size_t n, FILE *f)
 extern "C" int __wrap_fclose(FILE *f) {
   if (!in_lib()) return __real_fclose(f);
   HarnessScope hs_;
-  if (G.istreams.erase(f) > 0) return __real_fclose(f);  // closing an input stream loses nothing: not a fault point
+  if (G.istreams.erase(f) > 0) {  // closing an input stream loses nothing: not a fault point
+    auto it = G.istream_cookie.find(f);
+    if (it != G.istream_cookie.end()) {
+      InStream *is = (InStream *)it->second;
+      if (is->fd >= 0 && is->fd - FD_BASE < (int)G.fds.size()) G.fds[is->fd - FD_BASE].open = false;
+      G.istream_cookie.erase(it);
+    }
+    return __real_fclose(f);
+  }
   const EnvAns *a = answer(K_FCLOSE);
   bool known = G.ostreams.erase(f) > 0 || G.istreams.erase(f) > 0;
   if (!known && f != nullptr && f != stdout && f != stderr && f != stdin) sim_reject("fclose: stream was not opened by fopen");
